@@ -204,6 +204,7 @@ def norm(t):
     if t is None: return None
     t = re.sub(r"\b(?:[a-z_][a-z0-9_]*::)+", "", t)
     t = re.sub(r"&'\w+ ", "&", t)
+    t = re.sub(r"<'\w+>", "", t); t = re.sub(r"<'\w+, ", "<", t)
     return t
 
 INT_TY = re.compile(r'(i|u)(8|16|32|64|128|size)$')
@@ -807,10 +808,11 @@ class Engine:
                     k, t = arm.split(':'); t = int(t.strip()[2:])
                     if k.strip() == 'otherwise':
                         if isb: conds.append(z3.And(*[v != z3.BoolVal(bool(x)) for x in seen]) if seen else z3.BoolVal(True))
-                        else: conds.append(z3.And(*[v != x for x in seen]) if seen else z3.BoolVal(True))
+                        else: conds.append(z3.And(*([v != x for x in seen] + ([v != -1] if 255 in seen else []))) if seen else z3.BoolVal(True))
                     else:
                         kv = int(k); seen.append(kv)
-                        conds.append((v == z3.BoolVal(bool(kv))) if isb else (v == kv))
+                        if kv == 255 and not isb: conds.append(z3.Or(v == 255, v == -1))      # i8 discriminant -1 (Ordering::Less) prints as 255
+                        else: conds.append((v == z3.BoolVal(bool(kv))) if isb else (v == kv))
                     tgts.append(t)
                 bb = tgts[s.choose(conds)]; continue
             if term.startswith('assert('):
